@@ -351,7 +351,15 @@ class Universe:
         """Python ``a == b`` for terms (total; see A-EQ)."""
         both_num = z3.And(self.isnum(a), self.isnum(b))
         both_date = z3.And(self.isdate(a), self.isdate(b))
+        both_str = z3.And(ty(a) == TAG["str"], ty(b) == TAG["str"])
+        # None / bool / str / number / date values of different kinds are never equal
+        kind_of = lambda x: z3.If(self.isnum(x), 1, z3.If(x == self.NONE, 2, z3.If(ty(x) == TAG["str"], 3,
+                            z3.If(self.isdate(x), 4, z3.If(ty(x) == TAG["bytes"], 5, z3.If(ty(x) == TAG["tuple"], 6,
+                            z3.If(ty(x) == TAG["list"], 7, 0)))))))
+        ka, kb = kind_of(a), kind_of(b)
         return z3.If(both_num, self.num_eq(a, b),
+               z3.If(both_str, strv(a) == strv(b),
+               z3.If(z3.And(ka != kb, ka != 0, kb != 0), z3.BoolVal(False),
                      z3.If(both_date, z3.And(ty(a) == ty(b), dord(a) == dord(b)),
                            z3.If(a == b, z3.Not(z3.And(self.isnum(a), kind(a) == NAN)),
-                                 z3.And(pyeq_u(a, b), pyeq_u(b, a)))))
+                                 z3.And(pyeq_u(a, b), pyeq_u(b, a)))))))
